@@ -163,6 +163,71 @@ Theorem C05num_cmp_spec_reflects : forall a b,
 Proof. exact spec_cmp_reflects. Qed.
 Print Assumptions C05num_cmp_spec_reflects.
 
+(* ---- 7b. comparisons with a decimal operand (decimal_bind: common (precision, scale), the side(s) whose type differs
+   are rescaled, the unscaled integers are compared) against the order of the rationals v1/10^s1, v2/10^s2 *)
+(* the definition is the order of the rationals (cross-multiplication) *)
+Theorem C05num_dec_cmp_spec_is_rational_order : forall s1 v1 s2 v2, 0 <= s1 -> 0 <= s2 ->
+  spec_dec_cmp s1 v1 s2 v2 = (v1 * 10 ^ s2 ?= v2 * 10 ^ s1).
+Proof. exact spec_dec_cmp_cross. Qed.
+Print Assumptions C05num_dec_cmp_spec_is_rational_order.
+
+(* never a wrong answer, for every pair of types and values, whichever side is rescaled, clamped or not *)
+Theorem C05num_dec_cmp_sound : forall m kd p1 s1 v1 p2 s2 v2 c,
+  dec_cmp_core m kd p1 s1 (Some v1) p2 s2 (Some v2) = Ok (Some c) -> c = spec_dec_cmp s1 v1 s2 v2.
+Proof. exact dec_cmp_sound. Qed.
+Print Assumptions C05num_dec_cmp_sound.
+
+Theorem C05num_dec_cmp_null : forall m kd p1 s1 v1 p2 s2 v2 c,
+  dec_cmp_core m kd p1 s1 v1 p2 s2 v2 = Ok c -> (v1 = None \/ v2 = None) -> c = None.
+Proof. exact dec_cmp_null. Qed.
+Print Assumptions C05num_dec_cmp_null.
+
+(* full statement (refuted: C05num_dec_cmp_refuted -- the common precision is clamped at MAX_PRECISION and the rescaled
+   value does not fit, or the i8 arithmetic of decimal_bind overflows):
+     forall m kd p1 s1 v1 p2 s2 v2, 1 <= p1 <= maxprec kd -> 1 <= p2 <= maxprec kd -> -128 <= s1 <= p1 -> -128 <= s2 <= p2 ->
+       Z.abs v1 < 10 ^ p1 -> Z.abs v2 < 10 ^ p2 ->
+       dec_cmp_core m kd p1 s1 (Some v1) p2 s2 (Some v2) = Ok (Some (spec_dec_cmp s1 v1 s2 v2)) *)
+Theorem C05num_dec_cmp_correct_partial : forall m kd p1 s1 v1 p2 s2 v2,
+  1 <= p1 <= maxprec kd -> 1 <= p2 <= maxprec kd -> -64 <= s1 <= p1 -> -64 <= s2 <= p2 ->
+  Z.max (p1 - s1) (p2 - s2) + Z.max s1 s2 <= maxprec kd ->
+  Z.abs v1 < 10 ^ p1 -> Z.abs v2 < 10 ^ p2 ->
+  dec_cmp_core m kd p1 s1 (Some v1) p2 s2 (Some v2) = Ok (Some (spec_dec_cmp s1 v1 s2 v2)).
+Proof. exact dec_cmp_correct_partial. Qed.
+Print Assumptions C05num_dec_cmp_correct_partial.
+
+Theorem C05num_dec_cmp_refuted :
+  dec_cmp_core Debug D64 18 0 (Some 1) 18 18 (Some (5 * 10 ^ 17)) = Err /\ spec_dec_cmp 0 1 18 (5 * 10 ^ 17) = Gt /\
+  dec_cmp_core Debug D128 38 0 (Some 1) 38 38 (Some (5 * 10 ^ 37)) = Err /\
+  dec_cmp_core Debug D128 38 (-100) None 5 2 (Some 50) = Panic /\ dec_cmp_core Release D128 38 (-100) None 5 2 (Some 50) = Err /\
+  dec_cmp_core Debug D128 18 0 (Some 1) 19 18 (Some (5 * 10 ^ 17)) = Ok (Some Gt).
+Proof. exact dec_cmp_refuted. Qed.
+Print Assumptions C05num_dec_cmp_refuted.
+
+(* decimal ~ decimal of either width, decimal ~ integer whenever the binder stays in decimals: exact *)
+Theorem C05num_cmp_mixed_sound : forall m l r c, exact_path l r = true ->
+  impl_cmp_mixed m l r = Ok (Some c) -> spec_cmp_mixed l r = Ok (Some c).
+Proof. exact cmp_mixed_sound. Qed.
+Print Assumptions C05num_cmp_mixed_sound.
+
+Theorem C05num_cmp_mixed_refuted :
+  impl_cmp_mixed Debug (OpInt Signed 64 (Some 9007199254740993)) (OpDec D64 18 0 (Some 9007199254740992)) = Ok (Some Eq) /\
+  spec_cmp_mixed (OpInt Signed 64 (Some 9007199254740993)) (OpDec D64 18 0 (Some 9007199254740992)) = Ok (Some Gt) /\
+  impl_cmp_mixed Debug (OpDec D128 20 2 (Some 150)) (OpInt Unsigned 64 (Some 18446744073709551615)) = Err /\
+  spec_cmp_mixed (OpDec D128 20 2 (Some 150)) (OpInt Unsigned 64 (Some 18446744073709551615)) = Ok (Some Lt) /\
+  impl_cmp_mixed Debug (OpInt Unsigned 64 (Some 5)) (OpDec D64 10 2 (Some 500)) = Err.
+Proof. exact cmp_mixed_refuted. Qed.
+Print Assumptions C05num_cmp_mixed_refuted.
+
+(* the six operators and IS [NOT] DISTINCT FROM read off the three-way result *)
+Theorem C05num_cmp_results : forall c,
+  cmp_results (Some c) false false =
+  map Some [match c with Lt => true | _ => false end; match c with Gt => false | _ => true end;
+            match c with Eq => true | _ => false end; match c with Eq => false | _ => true end;
+            match c with Lt => false | _ => true end; match c with Gt => true | _ => false end;
+            match c with Eq => false | _ => true end; match c with Eq => true | _ => false end].
+Proof. exact cmp_results_spec. Qed.
+Print Assumptions C05num_cmp_results.
+
 (* ---- 8. the repaired functions on the former witnesses *)
 Theorem C05num_current_witnesses :
   impl_gcd 8 (-128) 6 = Some (Ok 2) /\ impl_gcd 8 (-128) (-128) = Some Err /\ impl_gcd 64 (- 2 ^ 63) 0 = Some Err /\
